@@ -64,6 +64,7 @@ type Config struct {
 	BigTx                                                                   bool   // some transactions are several KB (WAL records beyond 4096 bytes)
 	Attack                                                                  string // "split": a coordinated equivocation attack (see attack.go)
 	Sides                                                                   []int  // split attack: side (0/1) of every validator id
+	Victim                                                                  int    // laggard attack: the validator kept a round behind
 	ValChanges                                                              bool
 	Script                                                                  string
 	Compensate                                                              bool // supply the proposer cache after a reload (finding F1)
